@@ -433,6 +433,9 @@ package stick
 // below its own blocks, above its ancestors'); every other table keeps its place
 //@   asserts own: err == nil ==> fresh(tree)
 //@   asserts rank: err == nil ==> len(s.blocks) == l + 1 && s.blocks[l] == lb && s.blocks[l - 1] == blocks
+// ... and for a template that extends nothing (the last table is its own): at the very end of the chain
+//@   asserts rankroot: err == nil && !extending ==> len(s.blocks) >= 2 && s.blocks[len(s.blocks) - 1] == blocks
+//@   asserts rankext: err == nil && extending ==> len(s.blocks) >= 2 && s.blocks[len(s.blocks) - 2] == blocks
 //@   propagates
 //@   ensures wfail: wfail() && !old(wfail()) ==> err != nil
 //@   ensures order: wafterfail() ==> old(wafterfail()) || old(wfail())
